@@ -131,6 +131,10 @@ func classifyCode(code, msg string) string {
 		return "compile"
 	case code == "INTERNAL" && strings.Contains(msg, "context canceled"):
 		return "skipped"
+	case code == "INTERNAL" && (strings.Contains(msg, "deadlock detected") || strings.Contains(msg, "SQLSTATE 40001")):
+		// the database chose this element's transaction as the victim of a concurrency conflict with a sibling
+		// element of a parallel bulk (outside the retry loop of the write path): it did not run
+		return "aborted"
 	case code == "INTERNAL":
 		return "internal"
 	}
